@@ -23,10 +23,8 @@ def jobs(tier: str) -> List[tuple]:
         for m in ('_bit_address_decompose', '_get_memory_word', '_set_memory_word', 'read_bit', 'write_bit', 'get_word'):
             js.append((C01py.unit_reader_method, (m, w)))
     if th:
-        for w in C01py.WIDTHS:
-            for which in ('fast', 'featured'):
-                for lo in (False, True):
-                    js.append((C01py.unit_run_loop, (which, w, lo)))
+        for w in C01py.WIDTHS:  # every width; the fast loop without and the featured loop with the last-ops list (the other two combinations: C18)
+            js += [(C01py.unit_run_loop, ('fast', w, False)), (C01py.unit_run_loop, ('featured', w, True))]
     else:
         js += [(C01py.unit_run_loop, ('fast', 16, False)), (C01py.unit_run_loop, ('featured', 16, True))]
     for w in (C01c.WIDTHS if th else (32,)):
